@@ -342,6 +342,11 @@ def compose(unit, outdir):
             a, o, b = find_struct(src, e["struct"])
             keep = e.get("keep", "").split(",")
             fields_txt = src[o + 1:b - 1]
+            # E4b: `retype=<from>=><to>[;<from>=><to>]` rewrites a type PATH in the kept field declarations (used to point
+            # std::collections::{HashMap,HashSet} at the abstract map/set declared in the spec file); no code is touched
+            for rule in filter(None, e.get("retype", "").split(";")):
+                frm, _, to = rule.partition("=>")
+                fields_txt = fields_txt.replace(frm, to)
             kept = []
             for fl in fields_txt.split("\n"):
                 m = re.match(r"\s*(?:pub(?:\([a-z]+\))?\s+)?(\w+)\s*:\s*(.+?),?\s*$", fl)
